@@ -14,5 +14,6 @@ PROPS = {
     "C12": [J("^TestC12Lockstep$", 2500, 12000, shards=8), J("^TestC12LockstepOnDisk$", 1, 1200, shards=6, tier="thorough")],
     "C13": [J("^TestC13Reopen$", 300, 2500, shards=6), J("^TestC13Crash$", 150, 700, shards=8), J("^TestC13ConcurrentReaders$", 60, 400, shards=2), J("^TestC13Migration$", 40, 250, shards=4)],
     "C14": [J("^TestC14Controlled$", 500, 4000, shards=8), J("^TestC14FreeRunning$", 100, 800, shards=4, race=True)],
+    "C16": [J("^TestC16Library$", 4000, 40000, shards=6), J("^TestC16Binary$", 800, 6000, shards=4)],
     "C19": [J("^TestC19", 3000, 40000, shards=8)],
 }
